@@ -327,6 +327,7 @@ fn value_palette() -> Vec<Value> {
         Value::from(-7), Value::from(1), Value::from(99999), Value::from(-70000), Value::Integer(Integer::try_from(1i128 << 63).unwrap()),
         Value::Text("a/b".into()), Value::Text("ab".into()), Value::Text(" a/b".into()), Value::Text("a/b/c".into()), Value::Text("".into()),
         Value::Text("a/".into()), Value::Text("/b".into()), Value::Text("/".into()), Value::Text("a/b ".into()), Value::Text("é/ü".into()),
+        Value::Text("a/b\n".into()), Value::Text("\ta/b".into()), Value::Text("a/b\u{a0}".into()), Value::Text("text/plain; charset=utf-8".into()),
         Value::Bytes(vec![]), Value::Bytes(vec![1, 2]), Value::Array(vec![]), Value::Array(vec![Value::from(1)]), Value::Array(vec![Value::Text("x".into())]),
         Value::Array(vec![Value::from(8)]), sig.clone(), Value::Array(vec![sig.clone(), sig.clone()]), Value::Array(vec![sig.clone(), Value::from(1)]),
         Value::Array(vec![Value::Bytes(vec![0xa0, 0x00]), Value::Map(vec![]), Value::Bytes(vec![])]),
@@ -390,7 +391,7 @@ pub fn probe_headers() -> i32 {
                        match CoseSign1::from_cbor_value(msg) { Ok(s) => (true, cmp_header_fields(&v, &s.unprotected)), Err(_) => (false, None) } }
             };
             let mut b = vec![]; ciborium::ser::into_writer(&v, &mut b).unwrap();
-            if got != want { let dup = { let ls: Vec<_> = m.iter().map(|(k, _)| label_ref(k)).collect(); (0..ls.len()).any(|a| (0..a).any(|b2| ls[a].is_some() && ls[a] == ls[b2])) }; let tags = if dup { "C08,C09,C12" } else { "C08,C09" }; if report(tags, format!("header map {} (context {}): crate {} it, RFC 8152 3.1 says {}", hex(&b), ["standalone", "protected bstr", "unprotected of COSE_Sign1"][ctx],
+            if got != want { let dup = { let ls: Vec<_> = m.iter().map(|(k, _)| label_ref(k)).collect(); (0..ls.len()).any(|a| (0..a).any(|b2| ls[a].is_some() && ls[a] == ls[b2])) }; let tags = if dup { "C08,C09,C12" } else { "C08,C09,C17" }; if report(tags, format!("header map {} (context {}): crate {} it, RFC 8152 3.1 says {}", hex(&b), ["standalone", "protected bstr", "unprotected of COSE_Sign1"][ctx],
                 if got { "accepts" } else { "rejects" }, if want { "accept" } else { "reject" })) { return 1; } }
             if let Some(f) = fields { let tags = if f == "original_data" { "C02,C09" } else { "C08,C09" }; if report(tags, format!("header map {} (context {}): field {} does not equal the wire value", hex(&b), ctx, f)) { return 1; } }
         }
@@ -512,11 +513,29 @@ pub fn probe_framing() -> i32 {
             if let Some(x) = a { let e1 = x.clone().to_vec().ok(); let e2 = x.to_cbor_value().ok().map(|v| ser(&v));
                 if e1 != e2 { if report("C13", format!("{}: to_vec and serialise(to_cbor_value) disagree for the value decoded from {}", $name, hex(&body))) { return 1; } } }
         }}; }
+        for depth in [10usize, 40, 100, 200] {
+            // header map {9: [[[...[0]...]]]} with `depth` nested arrays: within ciborium's own limit, so both API layers accept it
+            let mut h = vec![0xa1u8, 0x09]; for _ in 0..depth { h.push(0x81); } h.push(0x00);
+            agree!(Header, h.clone(), "Header with a deeply nested extra parameter");
+            if Header::from_slice(&h).is_err() { if report("C13,C01", format!("Header with an extra parameter nested {} deep is rejected by from_slice", depth)) { return 1; } }
+        }
         agree!(CoseSign1, sign1.clone(), "CoseSign1"); agree!(CoseEncrypt0, enc0.clone(), "CoseEncrypt0"); agree!(Header, vec![0xa2, 0x01, 0x26, 0x20, 0x01], "Header");
         agree!(ProtectedHeader, vec![0xa1, 0x01, 0x26], "ProtectedHeader"); agree!(CoseKey, vec![0xa2, 0x01, 0x04, 0x20, 0x41, 0x01], "CoseKey");
         agree!(CoseKeySet, vec![0x81, 0xa1, 0x01, 0x04], "CoseKeySet"); agree!(cwt::ClaimsSet, vec![0xa2, 0x01, 0x61, b'i', 0x04, 0x01], "ClaimsSet");
         agree!(CoseSign, vec![0x84, 0x40, 0xa0, 0xf6, 0x81, 0x83, 0x40, 0xa0, 0x41, 0x01], "CoseSign"); agree!(CoseMac0, vec![0x84, 0x40, 0xa0, 0xf6, 0x41, 0x01], "CoseMac0");
         agree!(CoseRecipient, vec![0x83, 0x40, 0xa0, 0xf6], "CoseRecipient"); agree!(CoseKdfContext, vec![0x84, 0x01, 0x83, 0xf6, 0xf6, 0xf6, 0x83, 0xf6, 0xf6, 0xf6, 0x82, 0x18, 0x80, 0x40], "CoseKdfContext");
+    }
+    // every input of at most two bytes through every byte-level entry point (panics are what matters here)
+    {
+        let mut inputs: Vec<Vec<u8>> = vec![vec![]];
+        for a in 0..=255u8 { inputs.push(vec![a]); for b2 in 0..=255u8 { inputs.push(vec![a, b2]); } }
+        for i in &inputs {
+            n += 1;
+            let _ = CoseSign1::from_slice(i); let _ = CoseSign1::from_tagged_slice(i); let _ = CoseSign::from_tagged_slice(i); let _ = CoseMac::from_tagged_slice(i);
+            let _ = CoseMac0::from_tagged_slice(i); let _ = CoseEncrypt::from_tagged_slice(i); let _ = CoseEncrypt0::from_tagged_slice(i);
+            let _ = Header::from_slice(i); let _ = CoseKey::from_slice(i); let _ = CoseKeySet::from_slice(i); let _ = cwt::ClaimsSet::from_slice(i); let _ = CoseKdfContext::from_slice(i);
+            let _ = ProtectedHeader::from_cbor_bstr(Value::Bytes(i.clone())); let _ = Label::from_slice(i); let _ = CoseRecipient::from_slice(i); let _ = CoseSignature::from_slice(i);
+        }
     }
     println!("probe framing: {} cases, no disagreement", n);
     0
@@ -605,7 +624,7 @@ pub fn probe_order() -> i32 {
         for i in [i64::MIN, i64::MIN + 1, -5_000_000_000, -(1i64 << 32) - 1, -(1i64 << 31) - 1, -(1i64 << 31), -70000, -65537] { regs.push((RegisteredLabelWithPrivate::PrivateUse(i), Label::Int(i))); }
         for a in [iana::Algorithm::ES256, iana::Algorithm::A128GCM, iana::Algorithm::RS1, iana::Algorithm::EdDSA, iana::Algorithm::HMAC_256_256, iana::Algorithm::A256GCM] {
             regs.push((RegisteredLabelWithPrivate::Assigned(a), Label::Int(a as i64))); }
-        for t in ["", "a", "b", "aa", "é", "zz"] { regs.push((RegisteredLabelWithPrivate::Text(t.into()), Label::Text(t.into()))); }
+        for t in ["", "a", "b", "z", "aa", "aaa", "é", "zz"] { regs.push((RegisteredLabelWithPrivate::Text(t.into()), Label::Text(t.into()))); }
         for (ra, la) in &regs { for (rb, lb) in &regs {
             n += 1;
             if ra.cmp(rb) != la.cmp(lb) { if report("C16", format!("RegisteredLabelWithPrivate::cmp({:?}, {:?}) = {:?}, the labels they denote compare {:?}", ra, rb, ra.cmp(rb), la.cmp(lb))) { return 1; } }
@@ -613,7 +632,7 @@ pub fn probe_order() -> i32 {
         } }
         let mut regs2: Vec<(RegisteredLabel<iana::HeaderParameter>, Label)> = vec![];
         for h in [iana::HeaderParameter::Alg, iana::HeaderParameter::Crit, iana::HeaderParameter::X5Chain, iana::HeaderParameter::CounterSignature] { regs2.push((RegisteredLabel::Assigned(h), Label::Int(h as i64))); }
-        for t in ["", "a", "aa", "é", "zz"] { regs2.push((RegisteredLabel::Text(t.into()), Label::Text(t.into()))); }
+        for t in ["", "a", "z", "b", "aa", "aaa", "é", "zz"] { regs2.push((RegisteredLabel::Text(t.into()), Label::Text(t.into()))); }
         for (ra, la) in &regs2 { for (rb, lb) in &regs2 {
             n += 1;
             if ra.cmp(rb) != la.cmp(lb) { if report("C16", format!("RegisteredLabel::cmp({:?}, {:?}) = {:?}, the labels they denote compare {:?}", ra, rb, ra.cmp(rb), la.cmp(lb))) { return 1; } }
@@ -621,7 +640,8 @@ pub fn probe_order() -> i32 {
     }
     // canonicalize: every rotation of a palette of extra labels (no label 0: known finding), both orderings
     let extras: Vec<Label> = vec![Label::Int(-1), Label::Int(24), Label::Int(-24), Label::Int(-25), Label::Int(6), Label::Int(255), Label::Int(-256), Label::Int(256), Label::Int(-257),
-                                  Label::Text("".into()), Label::Text("k".into()), Label::Int(65536), Label::Int(-65536), Label::Int(-65537)];
+                                  Label::Text("".into()), Label::Text("k".into()), Label::Int(65536), Label::Int(-65536), Label::Int(-65537),
+                                  Label::Text("t".repeat(22)), Label::Text("u".repeat(23)), Label::Text("v".repeat(24)), Label::Text("w".repeat(253)), Label::Text("x".repeat(254)), Label::Text("y".repeat(255)), Label::Text("z".repeat(256))];
     for rot in 0..extras.len() { for typed in 0..4 {
         let mut k = CoseKeyBuilder::new_symmetric_key(vec![1]).build();
         k.params.clear();
@@ -688,7 +708,7 @@ pub fn probe_keys() -> i32 {
         let got = CoseKey::from_cbor_value(v.clone());
         let mut b = vec![]; ciborium::ser::into_writer(&v, &mut b).unwrap();
         let dupk = (0..m.len()).any(|a| (0..a).any(|b2| m[a].0 == m[b2].0));
-        if got.is_ok() != want { if report(if dupk { "C10,C12" } else { "C10" }, format!("COSE_Key {}: crate {} it, RFC 8152 7 says {}", hex(&b), if got.is_ok() { "accepts" } else { "rejects" }, if want { "accept" } else { "reject" })) { return 1; } }
+        if got.is_ok() != want { if report(if dupk { "C10,C12" } else { "C10,C17" }, format!("COSE_Key {}: crate {} it, RFC 8152 7 says {}", hex(&b), if got.is_ok() { "accepts" } else { "rejects" }, if want { "accept" } else { "reject" })) { return 1; } }
         if let Ok(k) = got {
             let get = |x: i64| m.iter().find(|(kk, _)| matches!(label_ref(kk), Some(Ok(y)) if y == x)).map(|(_, v)| v.clone());
             let bb = |x: i64| match get(x) { Some(Value::Bytes(b)) => b, _ => vec![] };
@@ -767,7 +787,7 @@ pub fn probe_claims() -> i32 {
     let keys: Vec<Value> = vec![Value::from(0), Value::from(1), Value::from(2), Value::from(3), Value::from(4), Value::from(5), Value::from(6), Value::from(7), Value::from(8), Value::from(9),
         Value::from(10), Value::from(38), Value::from(40), Value::from(41), Value::from(-257), Value::from(-261), Value::from(-65536), Value::from(-65537), Value::Text("c".into()), Value::Bytes(vec![1])];
     let vals: Vec<Value> = vec![Value::Text("s".into()), Value::from(1), Value::from(-1), Value::Integer(Integer::try_from(1i128 << 63).unwrap()), Value::Float(1.5), Value::Float(f64::INFINITY),
-        Value::Float(f64::NAN), Value::Float(-0.0), Value::Bytes(vec![]), Value::Bytes(vec![1]), Value::Null, Value::Array(vec![])];
+        Value::Float(f64::NAN), Value::Float(-0.0), Value::Bytes(vec![]), Value::Bytes(vec![1]), Value::Null, Value::Array(vec![]), Value::Array(vec![Value::Text("a".into())]), Value::Array(vec![Value::from(1)])];
     let mut n = 0u64;
     let mut maps: Vec<Vec<(Value, Value)>> = vec![vec![]];
     for k in &keys { for v in &vals { maps.push(vec![(k.clone(), v.clone())]); } }
@@ -779,7 +799,7 @@ pub fn probe_claims() -> i32 {
         let got = cwt::ClaimsSet::from_cbor_value(v.clone());
         let mut b = vec![]; ciborium::ser::into_writer(&v, &mut b).unwrap();
         let dupk = (0..m.len()).any(|a| (0..a).any(|b2| m[a].0 == m[b2].0));
-        if got.is_ok() != want { if report(if dupk { "C18,C12" } else { "C18" }, format!("CWT claims set {}: crate {} it, RFC 8392 says {}", hex(&b), if got.is_ok() { "accepts" } else { "rejects" }, if want { "accept" } else { "reject" })) { return 1; } }
+        if got.is_ok() != want { if report(if dupk { "C18,C12" } else { "C18,C17" }, format!("CWT claims set {}: crate {} it, RFC 8392 says {}", hex(&b), if got.is_ok() { "accepts" } else { "rejects" }, if want { "accept" } else { "reject" })) { return 1; } }
         if let Ok(c) = got {
             let get = |x: i64| m.iter().find(|(kk, _)| matches!(kk, Value::Integer(i) if i128_of(i) == x as i128)).map(|(_, v)| v.clone());
             let t = |o: &Option<String>| o.clone().map(Value::Text);
@@ -863,6 +883,13 @@ pub fn probe_builders() -> i32 {
         let r = std::panic::catch_unwind(|| CoseKeyBuilder::new_okp_key().param(l, Value::Null).build());
         if r.is_err() != (0..=5).contains(&l) { if report("C19", format!("CoseKeyBuilder::param({}) panicked={}", l, r.is_err())) { return 1; } }
     }
+    for (c, reserved) in [(iana::CwtClaimName::Iss, true), (iana::CwtClaimName::Sub, true), (iana::CwtClaimName::Aud, true), (iana::CwtClaimName::Exp, true), (iana::CwtClaimName::Nbf, true),
+                          (iana::CwtClaimName::Iat, true), (iana::CwtClaimName::Cti, true), (iana::CwtClaimName::Cnf, false), (iana::CwtClaimName::Scope, false), (iana::CwtClaimName::CNonce, false)] {
+        n += 1;
+        let r = std::panic::catch_unwind(|| cwt::ClaimsSetBuilder::new().claim(c, Value::Null).build());
+        if r.is_err() != reserved { if report("C19", format!("ClaimsSetBuilder::claim({:?}) panicked={}, reserved={}", c, r.is_err(), reserved)) { return 1; } }
+        if let Ok(cs) = r { if cs.rest.len() != 1 { if report("C19", format!("ClaimsSetBuilder::claim({:?}) did not append exactly one extra claim", c)) { return 1; } } }
+    }
     for id in [-65538i64, -65537, -65536, -1, 0, 1, 100000] {
         n += 1;
         let r = std::panic::catch_unwind(|| cwt::ClaimsSetBuilder::new().private_claim(id, Value::Null).build());
@@ -888,7 +915,9 @@ pub fn probe_roundtrip() -> i32 {
     // protected headers in non-canonical wire forms, floats incl. NaN in 16/32/64-bit form, unknown parameters, nested counter signatures
     let prot_wires: Vec<Vec<u8>> = vec![vec![], vec![0xa0], vec![0xbf, 0xff], vec![0xa1, 0x18, 0x01, 0x26], vec![0xa2, 0x04, 0x41, 0x01, 0x01, 0x26],
         vec![0xa1, 0x18, 0x63, 0xfb, 0x7f, 0xf8, 0, 0, 0, 0, 0, 0], vec![0xa1, 0x18, 0x63, 0xfa, 0x7f, 0xc0, 0, 0], vec![0xa1, 0x18, 0x63, 0xf9, 0x3e, 0x00],
-        vec![0xa1, 0x07, 0x83, 0x43, 0xa1, 0x01, 0x26, 0xa0, 0x41, 0x07], vec![0xa2, 0x63, b'a', b'b', b'c', 0x01, 0x39, 0x01, 0x00, 0x9f, 0x01, 0xff]];
+        vec![0xa1, 0x07, 0x83, 0x43, 0xa1, 0x01, 0x26, 0xa0, 0x41, 0x07], vec![0xa2, 0x63, b'a', b'b', b'c', 0x01, 0x39, 0x01, 0x00, 0x9f, 0x01, 0xff],
+        // counter signature whose own protected header is in a non-canonical form (wrapped empty map / non-minimal integer)
+        vec![0xa1, 0x07, 0x83, 0x41, 0xa0, 0xa0, 0x41, 0x07], vec![0xa1, 0x07, 0x83, 0x44, 0xa1, 0x18, 0x01, 0x26, 0xa0, 0x41, 0x07]];
     let unprot: Vec<Vec<u8>> = vec![vec![0xa0], vec![0xa1, 0x04, 0x41, 0x0b],
         // every typed field at once plus extras with label 0, 8, negative, large and text labels
         vec![0xa9, 0x01, 0x26, 0x02, 0x81, 0x04, 0x03, 0x18, 0x3c, 0x04, 0x41, 0x01, 0x05, 0x41, 0x02, 0x00, 0x01, 0x08, 0xf6, 0x38, 0x63, 0x20, 0x61, b'z', 0x1a, 0x00, 0x01, 0x00, 0x00],
@@ -944,12 +973,27 @@ pub fn probe_roundtrip() -> i32 {
         fixed_point!(Header, p.clone(), "header map");
         fixed_point!(Header, u.clone(), "header map");
     } }
+    // a zero-length byte string in a payload / ciphertext slot is a present, empty value (nil is the absent one)
+    {
+        n += 6;
+        if CoseSign1::from_slice(&[0x84, 0x40, 0xa0, 0x40, 0x40]).ok().map(|m| m.payload) != Some(Some(vec![])) { if report("C09,C07", format!("COSE_Sign1 with an empty bstr payload: payload field is not Some([])")) { return 1; } }
+        if CoseSign::from_slice(&[0x84, 0x40, 0xa0, 0x40, 0x80]).ok().map(|m| m.payload) != Some(Some(vec![])) { if report("C09,C07", format!("COSE_Sign with an empty bstr payload: payload field is not Some([])")) { return 1; } }
+        if CoseMac0::from_slice(&[0x84, 0x40, 0xa0, 0x40, 0x40]).ok().map(|m| m.payload) != Some(Some(vec![])) { if report("C09,C07", format!("COSE_Mac0 with an empty bstr payload: payload field is not Some([])")) { return 1; } }
+        if CoseMac::from_slice(&[0x85, 0x40, 0xa0, 0x40, 0x40, 0x80]).ok().map(|m| m.payload) != Some(Some(vec![])) { if report("C09,C07", format!("COSE_Mac with an empty bstr payload: payload field is not Some([])")) { return 1; } }
+        if CoseEncrypt0::from_slice(&[0x83, 0x40, 0xa0, 0x40]).ok().map(|m| m.ciphertext) != Some(Some(vec![])) { if report("C09,C07", format!("COSE_Encrypt0 with an empty bstr ciphertext: field is not Some([])")) { return 1; } }
+        if CoseEncrypt::from_slice(&[0x84, 0x40, 0xa0, 0x40, 0x80]).ok().map(|m| m.ciphertext) != Some(Some(vec![])) { if report("C09,C07", format!("COSE_Encrypt with an empty bstr ciphertext: field is not Some([])")) { return 1; } }
+        for b in [vec![0x84u8, 0x40, 0xa0, 0x40, 0x80], vec![0x85, 0x40, 0xa0, 0x40, 0x40, 0x80]] {
+            if b[0] == 0x84 { fixed_point!(CoseSign, b.clone(), "COSE_Sign with empty payload"); if CoseSign::from_slice(&b).ok().and_then(|m| m.to_vec().ok()) != Some(b.clone()) { if report("C07,C09", format!("COSE_Sign {} does not re-encode to itself", hex(&b))) { return 1; } } }
+            else { fixed_point!(CoseMac, b.clone(), "COSE_Mac with empty payload"); if CoseMac::from_slice(&b).ok().and_then(|m| m.to_vec().ok()) != Some(b.clone()) { if report("C07,C09", format!("COSE_Mac {} does not re-encode to itself", hex(&b))) { return 1; } } }
+        }
+    }
     // empty recipients list in a 4-element COSE_recipient encodes as 3 elements and stays there
     fixed_point!(CoseRecipient, vec![0x84, 0x40, 0xa0, 0xf6, 0x80], "COSE_recipient with empty list");
     for k in [vec![0xa1u8, 0x01, 0x04], vec![0xa3, 0x20, 0x01, 0x01, 0x02, 0x21, 0x41, 0x01], vec![0xa4, 0x01, 0x61, b'k', 0x04, 0x82, 0x02, 0x01, 0x03, 0x26, 0x61, b'z', 0xf5]] { fixed_point!(CoseKey, k, "COSE_Key"); }
     for c in [vec![0xa0u8], vec![0xa2, 0x04, 0xfb, 0x3f, 0xf8, 0, 0, 0, 0, 0, 0, 0x01, 0x61, b'i'],
               vec![0xa1, 0x04, 0xfb, 0x40, 0x00, 0, 0, 0, 0, 0, 0], vec![0xa1, 0x05, 0xf9, 0x40, 0x00], vec![0xa1, 0x06, 0xfa, 0x4e, 0xca, 0xa9, 0x0c], vec![0xa1, 0x06, 0xfb, 0xc1, 0xd9, 0x55, 0x21, 0x90, 0, 0, 0], vec![0xa3, 0x18, 0x26, 0x01, 0x06, 0xf9, 0x7c, 0x00, 0x07, 0x41, 0x01]] { fixed_point!(cwt::ClaimsSet, c, "CWT claims set"); }
-    for c in [vec![0x84u8, 0x01, 0x83, 0xf6, 0xf6, 0xf6, 0x83, 0x41, 0x01, 0x20, 0xf6, 0x82, 0x18, 0x80, 0x43, 0xa1, 0x01, 0x26],
+    for c in [vec![0x84u8, 0x01, 0x83, 0xf6, 0xf6, 0xf6, 0x83, 0xf6, 0xf6, 0xf6, 0x83, 0x18, 0x80, 0x40, 0x40], vec![0x84u8, 0x01, 0x83, 0x40, 0xf6, 0x40, 0x83, 0xf6, 0x40, 0xf6, 0x82, 0x18, 0x80, 0x40],
+              vec![0x84u8, 0x01, 0x83, 0xf6, 0xf6, 0xf6, 0x83, 0x41, 0x01, 0x20, 0xf6, 0x82, 0x18, 0x80, 0x43, 0xa1, 0x01, 0x26],
               vec![0x86, 0x01, 0x83, 0xf6, 0x41, 0x02, 0xf6, 0x83, 0xf6, 0xf6, 0xf6, 0x83, 0x18, 0x80, 0x40, 0x41, 0x05, 0x41, 0x06, 0x41, 0x07]] { fixed_point!(CoseKdfContext, c, "COSE_KDF_Context"); }
     // encode side (C11): in-memory values encode to the documented shape and decode back
     let hdr = HeaderBuilder::new().algorithm(iana::Algorithm::ES256).text_value("t".into(), Value::from(1)).value(99, Value::Null).text_value("a".into(), Value::from(2)).value(-5, Value::Null).build();
@@ -968,6 +1012,15 @@ pub fn probe_roundtrip() -> i32 {
     let mut want = vec![0x84]; want.extend(bstr(&enc)); want.extend([0xa0, 0x40, 0x40]);
     n += 1;
     if b != want { if report("C11", format!("COSE_Sign1 built from that header encodes to {}, documented shape {}", hex(&b), hex(&want))) { return 1; } }
+    // every well-formed in-memory header encodes: content types the decoder would accept
+    for ct in ["a/b", "text/plain; charset=utf-8", "application/cose; cose-type=\"cose-sign1\"", "é/ü", "a/b c"] {
+        n += 1;
+        let h = HeaderBuilder::new().content_type(ct.to_string()).build();
+        match h.clone().to_vec() {
+            Ok(b) => { if Header::from_slice(&b).ok() != Some(h.clone()) { if report("C11", format!("Header with content type {:?} does not decode back", ct)) { return 1; } } }
+            Err(e) => { if report("C11", format!("well-formed Header with content type {:?} does not encode: {:?}", ct, e)) { return 1; } }
+        }
+    }
     // time claims keep their kind (integer vs float) across encode/decode
     for t in [cwt::Timestamp::WholeSeconds(2), cwt::Timestamp::WholeSeconds(-1), cwt::Timestamp::FractionalSeconds(2.0), cwt::Timestamp::FractionalSeconds(1.5),
               cwt::Timestamp::FractionalSeconds(1700000000.0), cwt::Timestamp::FractionalSeconds(-3.0), cwt::Timestamp::FractionalSeconds(0.0)] {
